@@ -160,6 +160,10 @@ func familyByName(name string) *wgen.Family {
 		return wgen.F3(name == "F3t")
 	}
 	var k int
+	var mini int
+	if n, _ := fmt.Sscanf(name, "F2Lm%dk%d", &mini, &k); n == 2 {
+		return wgen.F2LMini(k, mini)
+	}
 	if n, _ := fmt.Sscanf(name, "F2Lk%d", &k); n == 1 {
 		return wgen.F2L(k, strings.HasSuffix(name, "core"))
 	}
